@@ -74,7 +74,20 @@ def m1(ck: Check) -> None:
     dstores = [e for fm, e in stores if e.kind == "store"]
     node_p = dstores[0].nid
     if node_p not in hparams:
-        ck.ob("M1", hfm, dstores[0].stmt, False, "depth is stored on a node that is not a parameter of the helper")
+        msg = "depth is stored on a node that is not a parameter of the helper"
+        # an explicit work list that could not be read as the recursion: say why when a visited set guards the pushes
+        for n_ in own_walk(hf.node):
+            if isinstance(n_, ast.If) and isinstance(n_.test, ast.Compare) and len(n_.test.ops) == 1 \
+                    and isinstance(n_.test.ops[0], ast.NotIn) and isinstance(n_.test.comparators[0], ast.Name) \
+                    and any(isinstance(c_, ast.Call) and isinstance(c_.func, ast.Attribute) and c_.func.attr in ("append", "appendleft", "add")
+                            for s_ in n_.body for c_ in ast.walk(s_)) \
+                    and any(isinstance(w_, ast.While) for w_ in own_walk(hf.node)):
+                msg = (f"line {n_.lineno}: the depth update is propagated with a work list on which every node is put at most once "
+                       f"(`{text(n_.test)}`): a longest-path update is not a reachability sweep -- a descendant that is reached both "
+                       f"directly and through a sibling must be raised again after the sibling was raised, so depths (and "
+                       f"depth(), the summary header) come out too small")
+                break
+        ck.ob("M1", hfm, dstores[0].stmt, False, msg)
         return
     parent_p = [p for p in hparams if p != node_p][0]
     node_idx, parent_idx = hparams.index(node_p), hparams.index(parent_p)
